@@ -17,6 +17,8 @@ from ..schema import (
     InputObjectType,
     InputValue,
     InterfaceType,
+    ListType,
+    NonNullType,
     ObjectType,
     ScalarType,
     Schema,
@@ -276,8 +278,13 @@ class TypeInfoVisitor(DispatchingVisitor):
         return _peek(self._input_type_stack, 1)
 
     @property
+    def enclosing_input_type(self) -> Optional[GraphQLType]:
+        # Type of the position holding the list or object value being visited.
+        return _peek(self._input_type_stack, 2)
+
+    @property
     def parent_input_type(self) -> Optional[InputObjectType]:
-        t = _peek(self._input_type_stack, 2)
+        t = self.enclosing_input_type
         t = unwrap_type(t) if t is not None else None
         return t if isinstance(t, InputObjectType) else None
 
@@ -403,8 +410,15 @@ class TypeInfoVisitor(DispatchingVisitor):
         self._leave_input_value()
 
     def enter_list_value(self, node):
-
-        item_type = unwrap_type(self.input_type) if self.input_type else None
+        # Only one level of list is removed so that nested lists and non-null
+        # items are seen with their own type; a list literal in a non list
+        # position keeps the type of the position.
+        list_type = self.input_type
+        if isinstance(list_type, NonNullType):
+            list_type = list_type.type
+        item_type = (
+            list_type.type if isinstance(list_type, ListType) else list_type
+        )
 
         self._input_type_stack.append(
             item_type if item_type and is_input_type(item_type) else None
